@@ -375,6 +375,34 @@ theorem torn_vault_row_fails_open (rows : List Bytes) (row : Bytes) (n : Nat)
     omega
   simp [this]
 
+/-- C13/partial header.  Whatever part of the header a crash inside the header rewrite left
+(any file shorter than the header), the next start initialises the log again, and a record
+appended afterwards is read back by the start after that. -/
+theorem short_log_is_initialised_and_stays_usable (hdr junk r : Bytes) (v t sn : Option Bytes)
+    (hj : junk.length < hdr.length) (hr : r.length < 256 ^ 4) :
+    let s0 : FS := { vault := v, log := some junk, tmp := t, snap := sn }
+    logView hdr.length (initLog hdr s0) = [] ∧
+    logView hdr.length (Prim.run (initLog hdr s0) (.append .log (frame r))) = [r] := by
+  intro s0
+  have hinit : initLog hdr s0 = { s0 with log := some hdr } := by
+    simp [initLog, s0, hj]
+  rw [hinit]
+  constructor
+  · simp [logView, openLog, scan]
+  · simp only [Prim.run, FS.get, FS.set, logView, Option.getD_some, List.drop_left']
+    have := openLog_encRows [r] (by intro x hx; simp at hx; subst hx; exact hr)
+    simpa [encRows] using this
+
+private def hdr6 : Bytes := [1, 2, 3, 4, 5, 6]
+private def rec1 : Bytes := [9]
+
+/-- Witness of the repaired defect: with the old initialisation a four-byte file (identity
+without version) stays as it is; the appended record lands two bytes early and the next
+start, which skips six bytes, reads nothing of it. -/
+theorem partial_header_misaligned_the_log_before_the_repair :
+    let s0 : FS := { vault := none, log := some [1, 2, 3, 4], tmp := none, snap := none }
+    logView hdr6.length (Prim.run (initLogOld hdr6 s0) (.append .log (frame rec1))) ≠ [rec1] := by decide
+
 /-- and a vault of complete rows decodes to them -/
 theorem openVault_encRows (rows : List Bytes) (hr : ∀ x ∈ rows, x.length < 256 ^ 4) :
     openVault (encRows rows) = some rows := by
